@@ -1,8 +1,8 @@
 SPECIFICATION Spec
 CONSTANTS KnownDevs = {}
 INVARIANTS
-  C16_WritesConformToP4Info
   InEnvelope
+  C16_WritesConformToP4Info
 POSTCONDITION TraceAccepted
 ALIAS AliasC16
 CHECK_DEADLOCK FALSE
